@@ -1115,6 +1115,12 @@ pub(crate) fn interpret_isodatetime_offset(
     // 2. Let isoDateTime be CombineISODateAndTimeRecord(isoDate, time).
     // TODO: Deal with offsetBehavior == wall.
     match (is_exact, offset_nanos) {
+        // 4. offsetBehaviour is exact with the UTC designator `Z`: the date-time is the UTC reading
+        // of the instant, whatever zone is annotated.
+        (true, None) => {
+            date.is_valid_day_range()?;
+            IsoDateTime::new_unchecked(date, time).as_nanoseconds()
+        }
         // 4. If offsetBehaviour is exact, or offsetBehaviour is option and offsetOption is use, then
         (true, Some(offset)) if offset_option == OffsetDisambiguation::Use => {
             // a. Let balanced be BalanceISODateTime(isoDate.[[Year]], isoDate.[[Month]],
